@@ -64,8 +64,15 @@ class DriverError(RuntimeError):
 
 def ensure_driver():
     """(re)build the model, proofs and driver from the sources on disk; no-op when up to date."""
-    r = subprocess.run(["lake", "build", "GradysModel", "driver"], cwd=LEAN,
-                       stdout=subprocess.PIPE, stderr=subprocess.STDOUT, text=True)
+    import fcntl
+    (LEAN / ".lake").mkdir(exist_ok=True)
+    with open(LEAN / ".lake" / "gate.lock", "w") as lk:
+        fcntl.flock(lk, fcntl.LOCK_EX)
+        try:
+            r = subprocess.run(["lake", "build", "GradysModel", "driver"], cwd=LEAN,
+                               stdout=subprocess.PIPE, stderr=subprocess.STDOUT, text=True)
+        finally:
+            fcntl.flock(lk, fcntl.LOCK_UN)
     if r.returncode != 0 or not DRIVER.exists():
         raise DriverError("lake build driver failed:\n" + r.stdout[-4000:])
 
